@@ -55,6 +55,9 @@ FITS = [  # (class, ys, constraints); the last two use the unconstrained optimis
     ("q", [0.1, 0.5, 0.7, 0.9], dict(a=0.0, b=1.0, c=2, convex=True)),     # nothing to optimise: no draw at all
     ("q", [0.1, 0.5, 0.7, 0.9], None),
     ("n", [0.1, 0.5, 0.7, 0.9], dict(convex=True)),
+    # fewer than five initial candidates (a, b[, o] fixed, c restricted to a few values): the top-up path of the initial population
+    ("q", [0.1, 0.5, 0.7, 0.9], dict(a=0.0, b=1.0, c=(1, 3))),
+    ("n", [0.1, 0.5, 0.7, 0.9], dict(a=0.0, b=1.0, o=0.05, c=(2, 3), convex=False)),
 ]
 
 
@@ -390,6 +393,9 @@ def structured_histories(cpu):
         ("equal generator state via set_seed, other ld kind first", [S(0), B("et", 2, 0, None, 1), S(0), B("hd", 2, 0, None, 1)]),
         ("equal generator state, other distribution sampled first", [N(1), P(0, 3, 1), N(1), P(2, 3, 2), N(1), P(4, 3, 3)]),
         ("equal generator state, other fit first", [N(1), dict(op="F", fit=0, gen=1), N(1), dict(op="F", fit=1, gen=2)]),
+        ("fit with fewer than five initial candidates, explicit generator", [N(2), dict(op="F", fit=6, gen=1), N(2), dict(op="F", fit=6, gen=2)]),
+        ("fit with fewer than five initial candidates, global generator", [S(1), dict(op="F", fit=6, gen=None), S(1), dict(op="F", fit=6, gen=None)]),
+        ("noisy fit with fewer than five initial candidates", [N(0), dict(op="F", fit=7, gen=1), P(2, 3, 1), N(0), dict(op="F", fit=7, gen=2)]),
     ]
 
 
@@ -604,7 +610,7 @@ def run(seed, tier, replay=None):
             else:
                 rep.count(f"further violations keyed {k} (not listed)")
     return rep.result(
-        rule="25 structured histories (incl. pairs of calls on distinct generators in equal states) (F1 explicit/global, set_seed rebinding, n_jobs, overwriting returned arrays, "
+        rule="28 structured histories (incl. pairs of calls on distinct generators in equal states) (F1 explicit/global, set_seed rebinding, n_jobs, overwriting returned arrays, "
              "set_seed(generator), size 0, fits) + random histories of 2-12 calls over seeds {0,1,2,7}, 8 distributions x "
              "sizes {None,3,(2,2),0,1}, 7 samples (n=1..4) x confidences {.5,.9,.25} x methods {dkw,ks,ld_et,ld_hd} x n_jobs "
              "{1,2,16,None}, small fits, overwrites; the observed call repeats an earlier ld call's arguments with "
